@@ -6,6 +6,9 @@ import SimpleDnsModel.Model.Txt
 import SimpleDnsModel.Model.Mdns
 import SimpleDnsModel.Spec.RdataSchemas
 import SimpleDnsModel.Model.Writer
+import SimpleDnsModel.Model.Owned
+import SimpleDnsModel.Model.Pipeline
+import SimpleDnsModel.Model.Observers
 import SimpleDnsModel.Spec.NameDecode
 import SimpleDnsModel.Spec.Rfc1035Header
 open Dns Dns.Text
@@ -81,6 +84,36 @@ def gwToSpec : Gateway → Spec.GatewaySpec
   | .v4 a => .ipv4 a
   | .v6 a => .ipv6 a
   | .domain n => .name n
+
+def showReply (r : Option (Packet × Bool)) : String :=
+  match r with
+  | none => "none"
+  | some (r, u) => "some " ++ toString r.header.id ++ " " ++ toString r.header.flags ++ " " ++
+      showBool u ++ " answers " ++ showSorted (r.answers.map showRR) ++ " additional " ++
+      showSorted (r.additional.map showRR)
+
+/-- a reply as it comes off the wire: parsed again, unicast flag unknown -/
+def showReplyBytes (b : Option Bytes) : String :=
+  match b with
+  | none => "none"
+  | some bytes =>
+    match Packet.parse bytes with
+    | .ok r => "some " ++ toString r.header.id ++ " " ++ toString r.header.flags ++ " answers " ++
+        showSorted (r.answers.map showRR) ++ " additional " ++ showSorted (r.additional.map showRR)
+    | _ => "unparseable"
+
+def pIp : P (Bool × Nat) := fun ts => do
+  let (v6, ts) ← pBool ts
+  let (a, ts) ← pNat ts
+  pure ((v6, a), ts)
+
+def pInst : P Mdns.Instance := fun ts => do
+  let (name, ts) ← pBytes ts
+  let (ips, ts) ← pCounted pIp ts
+  let (ports, ts) ← pCounted pNat ts
+  pure ({ name := name, ips := ips, ports := ports, attrs := [] }, ts)
+
+def sameSet [BEq α] (a b : List α) : Bool := a.all b.contains && b.all a.contains
 
 def showNamePos (x : Name × Nat) : String := showName x.1 ++ " " ++ toString x.2
 
@@ -248,6 +281,60 @@ def answer (ts : List String) : String :=
         let r := if mode == "comp" then p.writeCompressedTo w else p.writeTo w
         showOut (fun w => hexOfBytes w.buf ++ " " ++ toString w.pos) r
     | _, _, _ => "bad-op"
+  | "owned.rr" :: rest =>
+    match pRR rest with
+    | some (r, []) => showRR r.intoOwned
+    | _ => "bad-op"
+  | "owned.q" :: rest =>
+    match pQuestion rest with
+    | some (q, []) => showQuestion q.intoOwned
+    | _ => "bad-op"
+  | "hash.rr" :: rest =>
+    match (pPair pRR pRR) rest with
+    | some ((a, b), []) => showBool (Mdns.rrEq a b) ++ " " ++ showBool (a.hashFeed == b.hashFeed)
+    | _ => "bad-op"
+  | "hash.name" :: rest =>
+    match (pPair pName pName) rest with
+    | some ((a, b), []) => showBool (a == b) ++ " " ++ showBool (Name.hashFeed a == Name.hashFeed b)
+    | _ => "bad-op"
+  | "hash.inst" :: rest =>
+    match (pPair pInst pInst) rest with
+    | some ((a, b), []) =>
+      showBool (a.name == b.name && sameSet a.ips b.ips && sameSet a.ports b.ports) ++ " " ++
+        showBool (a.hashFeed == b.hashFeed)
+    | _ => "bad-op"
+  | ["escape", hex] =>
+    match pStr [hex] with
+    | some (s, []) => hexOfBytes (bytesOfString (String.ofList (Mdns.escapeName s.toList)))
+    | _ => "bad-op"
+  | ["unescape", hex] =>
+    match pStr [hex] with
+    | some (s, []) => hexOfBytes (bytesOfString (String.ofList (Mdns.unescapeName s.toList)))
+    | _ => "bad-op"
+  | "pipe" :: rest =>
+    match runOps Mdns.Store.empty rest with
+    | some (s, ["R", hex, now]) =>
+      match bytesOfHex hex, now.toNat? with
+      | some d, some now => showOut showReplyBytes (Mdns.handleResponder s d now)
+      | _, _ => "bad-op"
+    | some (s, "D" :: ts) =>
+      match (pPair pName pName) ts with
+      | some ((service, full), [hex, now]) =>
+        match bytesOfHex hex, now.toNat? with
+        | some d, some now =>
+          showOut (fun r => showReplyBytes r.2 ++ " cached " ++
+            showSorted ((r.1.getDomain service Mdns.Filter.cachedOnly now).flatten.map showRR))
+            (Mdns.handleDiscovery s service full d now)
+        | _, _ => "bad-op"
+      | _ => "bad-op"
+    | _ => "bad-op"
+  | ["observe", hex] =>
+    match bytesOfHex hex with
+    | some d =>
+      match Packet.parse d with
+      | .ok p => showOut (fun _ => "") (Packet.observe p)
+      | _ => "bad-op"
+    | none => "bad-op"
   | ["type", c] =>
     match c.toNat? with
     | some c => (TYPE.ofCode c).mnemonic ++ " " ++ toString (TYPE.ofCode c).toCode
